@@ -444,24 +444,30 @@ def rule_F(ck, units, control):
         ck.brk('F.binary-search-sorted: the positive control verif_control::has_entry (tus/controls.cpp) was not recognised - the rule is blind')
 
 
+# free functions of the builtin backend that are applied to matrices nobody sorted (sub-blocks extracted by the Schur preconditioner,
+# shared user matrices of as_preconditioner / zero-copy adapters): they must not rely on the order of the entries in a row
+ORDER_FREE_BACKEND_FUNCTIONS = ('diagonal',)
+
+
 def rule_J(ck, units, floor=2):
     """J.row-scan-order-free: the adapters see the user's matrix as it is - rows in arbitrary order.  A scan over the entries of a row
     (`for (auto a = row_begin(A, i); a; ++a)`) may end early only on an equality (the entry looked for was found), never on an ordering
     comparison of the column with the row index or a bound (`a && a.col() <= i`, `if (a.col() > i) break;`): that is correct on sorted
     rows only."""
-    ck.rule('J.row-scan-order-free', 'adapters (amgcl/adapter/**): a scan over a row of the user matrix runs while the iterator is valid and is left early only on an equality test of the '
+    ck.rule('J.row-scan-order-free', 'adapters (amgcl/adapter/**) and backend::diagonal: a scan over a row of the user matrix runs while the iterator is valid and is left early only on an equality test of the '
                                      'column, never on an ordering comparison (rows of a user matrix are not sorted)', floor)
     seen = set()
     for u in units.values():
         for f in u.funcs:
-            if f.body is None or not f.rel().startswith('amgcl/adapter/') or (f.file, f.line) in seen:
+            in_scope = f.rel().startswith('amgcl/adapter/') or (f.rel() == 'amgcl/backend/builtin.hpp' and not f.cls and f.q.split('::')[-1] in ORDER_FREE_BACKEND_FUNCTIONS)
+            if f.body is None or not in_scope or (f.file, f.line) in seen:
                 continue
             loops = []
             for n in f.nodes.values():
                 if n['k'] != 'for' or n.get('init') is None:
                     continue
                 its = [v for d in walk(n['init']) if d['k'] == 'decl' for v in d['v'] if v.get('init') is not None
-                       and unwrap(v['init'])['k'] == 'call' and (unwrap(v['init']).get('f') or '').endswith('row_begin')]
+                       and unwrap(v['init'])['k'] == 'call' and ((unwrap(v['init']).get('f') or '').endswith('row_begin') or unwrap(v['init']).get('m') == 'row_begin')]
                 if its:
                     loops.append((n, its[0]))
             if not loops:
